@@ -63,8 +63,8 @@ PROPS["C06"] = {
 }
 
 
-C11Q = {"unwind_is_violation": 1, "disksz": 10000, "dirslots": 3, "namecmp": 2, "bbytes": 2, "bblocks": 2, "slots": 1, "fixstable": 1, "zeroalloc": 0, "marked": 0}
-C11T = {"unwind_is_violation": 1, "disksz": 10000, "dirslots": 4, "namecmp": 2, "bbytes": 4, "bblocks": 3, "slots": 3, "longnames": 1, "zeroalloc": 0, "marked": 0}
+C11Q = {"unwind_is_violation": 1, "disksz": 10000, "dirslots": 3, "namecmp": 2, "bbytes": 2, "bblocks": 2, "inums": 2, "offsets": 1, "fixstable": 1, "zeroalloc": 0, "oneblock": 1}
+C11T = {"unwind_is_violation": 1, "disksz": 10000, "dirslots": 4, "namecmp": 2, "bbytes": 4, "bblocks": 3, "inums": 5, "offsets": 2, "longnames": 1, "zeroalloc": 0}
 PROPS["C11"] = {
     "unclaimed": True,
     "level": "model_checking",
